@@ -100,6 +100,7 @@ namespace Givaro {
         // n must be in {2,4,p^m,2p^m} where p is an odd prime
         // else infinite loop
 
+        if (&A == &n) { const Rep nn(n); return prim_root(A, runs, nn); } // in place: n is read after A is written
         if (Rep::isleq(n,4))
             return this->sub(A,n,this->one);
         if (this->isZero(this->mod(A,n,4)))
@@ -200,6 +201,7 @@ namespace Givaro {
     template<class MyRandIter>
     typename IntNumTheoDom<MyRandIter>::Rep& IntNumTheoDom<MyRandIter>::probable_prim_root(Rep& primroot, double& error, const Rep& p, const uint64_t L) const
     {
+        if (&primroot == &p) { const Rep pp(p); return probable_prim_root(primroot, error, pp, L); } // in place
         // partial factorisation
         std::vector<Rep> Lq;
         std::vector<uint64_t> e;
@@ -333,6 +335,7 @@ namespace Givaro {
     typename IntNumTheoDom<MyRandIter>::Rep& IntNumTheoDom<MyRandIter>::prim_root_of_prime(Rep& A, const Array& aLf, const Rep& phin, const Rep& n) const
     {
 
+        if (&A == &n || &A == &phin) { const Rep nn(n), pp(phin); return prim_root_of_prime(A, aLf, pp, nn); } // in place
         Rep tmp, expo, temp;
         A = this->one;
         if (this->isOne(phin)) return A; // n == 2
@@ -422,6 +425,7 @@ namespace Givaro {
     {
         // n must be in {2,4,p^m,2p^m} where p is an odd prime
         // else returns zero
+        if (&A == &n) { const Rep nn(n); return lowest_prim_root(A, nn); } // in place: n is read after A is written
         if (Rep::isleq(n,4)) return Rep::sub(A,n,this->one);
         if (isZero(Rep::mod(A,n,4))) return A=this->zero;
         Rep phin, tmp;
@@ -479,6 +483,7 @@ namespace Givaro {
     typename IntNumTheoDom<MyRandIter>::Rep& IntNumTheoDom<MyRandIter>::order(Rep& g, const Rep& p, const Rep& n) const
     {
         // returns 0 if failed
+        if (&g == &n) { const Rep nn(n); return order(g, p, nn); } // in place: n is read after g is written
         Rep A;
         this->mod(A,p,n);
         if (isZero(A))
